@@ -171,6 +171,22 @@ class Evaluator:
                     if sub is not None:
                         sub_cls, sub_call = sub
                         inst.attr_inst[key] = self.instantiate(sub_cls, sub_call, env, origin="%s.%s" % (cls.name, t.attr))
+        # stage objects created lazily inside a property
+        for c in self.prog.mro(cls):
+            for pm in c.methods.values():
+                if "property" not in pm.decorators or not pm.params:
+                    continue
+                penv = Env(func=pm, params={}, inst=inst)
+                for n in own_nodes(pm.node):
+                    if isinstance(n, ast.Assign):
+                        sub = self._ctor_of(n.value, pm)
+                        if sub is None:
+                            continue
+                        for t in n.targets:
+                            if isinstance(t, ast.Attribute) and isinstance(t.value, ast.Name) and t.value.id == pm.params[0]:
+                                si = self.instantiate(sub[0], sub[1], penv, origin="%s.%s" % (cls.name, pm.name))
+                                inst.attr_inst[pm.name] = si
+                                inst.attr_inst[cls.mangle(t.attr)] = si
         return inst
 
     def _ctor_of(self, value: ast.AST, f: Func):
